@@ -210,9 +210,16 @@ pub fn float_inputs(seed: u64, count: usize, nmax: usize, dims: &[usize]) -> Vec
                 for _ in 0..n {
                     let u = DVec3::new(rng.gen_range(0.05..0.95), rng.gen_range(0.05..0.95), rng.gen_range(0.05..0.95));
                     let mut p = anchor + u * width;
-                    if rng.gen_bool(0.5) {
-                        let k = rng.gen_range(0..dim);
+                    // on a wall (one coordinate pinned), on an edge of the box (two) or exactly at a corner (all)
+                    let r: f64 = rng.gen_range(0.0..1.0);
+                    let pinned = if r < 0.45 { 0 } else if r < 0.75 { 1 } else if r < 0.9 { 2.min(dim) } else { dim };
+                    let first = rng.gen_range(0..dim);
+                    for j in 0..pinned {
+                        let k = (first + j) % dim;
                         p[k] = if rng.gen_bool(0.5) { anchor[k] } else { anchor[k] + width[k] };
+                    }
+                    if gens.iter().any(|q: &DVec3| (0..dim).all(|k| q[k] == p[k])) {
+                        continue;
                     }
                     gens.push(p);
                 }
